@@ -49,14 +49,14 @@ type FS struct {
 	Dir   string
 	Trace []FileOp
 
-	faults     []Fault
-	eligible   int // counter over fault-eligible operations
-	Fired      map[string]int
-	enospc     bool
-	enospcLeft int
-	active     *Fault // persistent / burst fault in progress
-	activeLeft int
-	FaultSeen  int // number of injected errors so far
+	faults      []Fault
+	eligible    int // counter over fault-eligible operations
+	Fired       map[string]int
+	enospc      bool
+	enospcLeft  int
+	active      *Fault // persistent / burst fault in progress
+	activeLeft  int
+	FaultSeen   int // number of injected errors so far
 	lastFaultOp int
 
 	Eligible []string // class of every fault-eligible operation, in order
@@ -66,10 +66,12 @@ type FS struct {
 	Quiet    bool // no recording (post-run verification reopen)
 }
 
+//go:norace
 func NewFS(dir string, faults []Fault) *FS {
 	return &FS{Dir: dir, faults: faults, Fired: map[string]int{}, open: map[*simFile]bool{}}
 }
 
+//go:norace
 func (fs *FS) rec(op FileOp) {
 	if fs.Quiet {
 		return
@@ -82,12 +84,16 @@ func (fs *FS) rec(op FileOp) {
 }
 
 // MarkOp appends a harness MARK to the trace.
+//
+//go:norace
 func (fs *FS) MarkOp(mark string, j int, synced bool) {
 	fs.rec(FileOp{Kind: "MARK", Mark: mark, J: j, Synced: synced})
 }
 
 // fault decides whether the fault-eligible operation of the given class fails.
 // class: write | sync | stat | open | remove | readdir
+//
+//go:norace
 func (fs *FS) fault(class string) *Fault {
 	if fs.Quiet {
 		return nil
@@ -134,6 +140,7 @@ func (fs *FS) fault(class string) *Fault {
 	return nil
 }
 
+//go:norace
 func faultClass(kind string) string {
 	switch kind {
 	case "write-eio", "write-short", "write-enospc":
@@ -152,6 +159,7 @@ func faultClass(kind string) string {
 	return kind
 }
 
+//go:norace
 func (fs *FS) fired(kind string) {
 	fs.Fired[kind]++
 	fs.FaultSeen++
@@ -160,6 +168,8 @@ func (fs *FS) fired(kind string) {
 }
 
 // FaultsPending reports whether any planned fault can still fire.
+//
+//go:norace
 func (fs *FS) FaultsPending() bool {
 	if fs.active != nil {
 		return true
@@ -173,6 +183,8 @@ func (fs *FS) FaultsPending() bool {
 }
 
 // StopFaults drops the remaining fault plan ("faults stop now").
+//
+//go:norace
 func (fs *FS) StopFaults() {
 	fs.faults = nil
 	fs.active = nil
@@ -190,6 +202,8 @@ var errEIO = &os.PathError{Op: "sim", Path: "", Err: syscall.EIO}
 var errENOSPC = &os.PathError{Op: "sim", Path: "", Err: syscall.ENOSPC}
 
 // OpenFile is the moss.OpenFile implementation.
+//
+//go:norace
 func (fs *FS) OpenFile(name string, flag int, perm os.FileMode) (moss.File, error) {
 	simrt.Yield(siteFileOpen)
 	base := filepath.Base(name)
@@ -217,14 +231,17 @@ func (fs *FS) OpenFile(name string, flag int, perm os.FileMode) (moss.File, erro
 	return sf, nil
 }
 
+//go:norace
 func (f *simFile) OsFile() *os.File { return f.f }
 
+//go:norace
 func (f *simFile) ReadAt(p []byte, off int64) (int, error) {
 	simrt.Yield(siteFileRead)
 	n, err := f.f.ReadAt(p, off)
 	return n, err
 }
 
+//go:norace
 func (f *simFile) WriteAt(p []byte, off int64) (int, error) {
 	simrt.Yield(siteFileWrite)
 	fs := f.fs
@@ -278,6 +295,7 @@ func (f *simFile) WriteAt(p []byte, off int64) (int, error) {
 	return n, err
 }
 
+//go:norace
 func (f *simFile) Sync() error {
 	simrt.Yield(siteFileSync)
 	fs := f.fs
@@ -290,6 +308,7 @@ func (f *simFile) Sync() error {
 	return nil // tmpfs: durability is modelled from the trace
 }
 
+//go:norace
 func (f *simFile) Stat() (os.FileInfo, error) {
 	simrt.Yield(siteFileStat)
 	fs := f.fs
@@ -301,6 +320,7 @@ func (f *simFile) Stat() (os.FileInfo, error) {
 	return f.f.Stat()
 }
 
+//go:norace
 func (f *simFile) Truncate(size int64) error {
 	simrt.Yield(siteFileTrunc)
 	f.fs.mutating++
@@ -309,6 +329,7 @@ func (f *simFile) Truncate(size int64) error {
 	return err
 }
 
+//go:norace
 func (f *simFile) Close() error {
 	simrt.Yield(siteFileClose)
 	f.fs.rec(FileOp{Kind: "CLOSE", File: f.name})
@@ -319,11 +340,13 @@ func (f *simFile) Close() error {
 
 var fsRegistry []*FS
 
+//go:norace
 func registerFS(fs *FS) {
 	fsRegistry = append(fsRegistry, fs)
 	simrt.Hooks = dispatchHooks
 }
 
+//go:norace
 func unregisterFS(fs *FS) {
 	for i, f := range fsRegistry {
 		if f == fs {
@@ -333,6 +356,7 @@ func unregisterFS(fs *FS) {
 	}
 }
 
+//go:norace
 func fsFor(path string) *FS {
 	d := filepath.Clean(path)
 	for _, f := range fsRegistry {
@@ -360,6 +384,8 @@ var dispatchHooks = simrt.OSHooks{
 }
 
 // Hooks returns the directory-operation hooks for simrt.
+//
+//go:norace
 func (fs *FS) Hooks() simrt.OSHooks {
 	return simrt.OSHooks{
 		Remove: func(name string) error {
@@ -404,6 +430,8 @@ func (fs *FS) Hooks() simrt.OSHooks {
 }
 
 // Listing returns the sorted file names of the directory.
+//
+//go:norace
 func (fs *FS) Listing() []string {
 	ents, _ := os.ReadDir(fs.Dir)
 	var out []string
@@ -415,6 +443,8 @@ func (fs *FS) Listing() []string {
 }
 
 // OpenHandles lists files opened through the FS and not closed.
+//
+//go:norace
 func (fs *FS) OpenHandles() []string {
 	var out []string
 	for f := range fs.open {
@@ -424,6 +454,7 @@ func (fs *FS) OpenHandles() []string {
 	return out
 }
 
+//go:norace
 func (op FileOp) String() string {
 	switch op.Kind {
 	case "WRITE":
